@@ -178,6 +178,29 @@ def coverage_world(seed, kinds, annotated=False):
             r = w.make_read("chr1", [(gl[0][0] + 5, gl[0][1])] + gl[1:] + gr[:2] + [(gr[2][0], gr[2][1] - 10)], truth={"cluster": len(clusters), "kind": kind, "class": "alignment-over-two-genes"})
             names.append(r.name)
             end = gr[2][1]
+        elif kind == "gene_chain_lowmapq":
+            # an annotated gene with 20 reads, a two-deep chain of unrelated MAPQ-60 reads leading 9 kb away from it, and at the end of the chain
+            # an unspliced MAPQ-3 read that overlaps no annotated feature: one region, which holds a gene
+            from vlib.world import Gene, Transcript
+            gx = [(start, start + 400), (start + 900, start + 1200), (start + 1700, start + 2200)]
+            g_ = Gene("GC%d" % len(clusters), "chr1", "+")
+            g_.transcripts.append(Transcript(g_.id + ".t1", g_.id, "chr1", "+", gx, True, "gene-with-a-chain"))
+            for intr in g_.transcripts[0].introns:
+                w.plant_sites("chr1", intr, "+")
+            w.genes.append(g_)
+            for k in range(20):
+                r = w.make_read("chr1", [(gx[0][0] + k % 7, gx[0][1]), gx[1], (gx[2][0], gx[2][1] - k % 5)], truth={"cluster": len(clusters), "kind": kind})
+                names.append(r.name)
+            c2 = gx[2][1] - 200
+            while c2 < start + 11000:
+                add(c2, c2 + 800)
+                add(c2 + 150, c2 + 950)
+                c2 += 500
+            r = w.make_read("chr1", [(c2 + 100, c2 + 900)], mapq=3,
+                            truth={"cluster": len(clusters), "kind": kind, "class": "gene-free-low-mapq-read-in-a-region-that-holds-a-gene",
+                                   "mapq_rule": "outside-genes", "n_exons": 1})
+            names.append(r.name)
+            end = c2 + 900
         elif kind == "gene_valley":
             # a four-exon gene with a 36-kb middle intron: pile-ups over exons 1-2 and 3-4, ONE full-length read bridging the
             # coverage-1 stretch (processed in both sub-regions), which also has a secondary alignment upstream of the cluster
@@ -313,7 +336,7 @@ def coverage_world(seed, kinds, annotated=False):
     if annotated:
         # a few genes under the clusters so that reads are processed by the genic branch
         for ci, c in enumerate(clusters):
-            if ci % 2 == 0 and c["end"] - c["start"] > 1500 and c["kind"] not in ("mapq_grid", "two_gene_bridge"):
+            if ci % 2 == 0 and c["end"] - c["start"] > 1500 and c["kind"] not in ("mapq_grid", "two_gene_bridge", "gene_chain_lowmapq"):
                 g, _ = w.make_gene("G%d" % ci, "chr1", c["start"] + 50, "+", n_exons=3, n_iso=1, exon_len=(150, 250),
                                    intron_len=(200, 300))
                 genes_under.append(g.id)
@@ -407,6 +430,15 @@ def judge(chk, desc, wit, w, clusters, reported_ids, kind_key, cut=None):
     for ci, c in enumerate(clusters):
         for n in c["reads"]:
             cl_of[n] = c["kind"]
+    truth_of = {r.name: r.truth for r in w.reads}
+    low_ = [n for n in missing if truth_of.get(n, {}).get("class") == "gene-free-low-mapq-read-in-a-region-that-holds-a-gene"]
+    if low_:
+        # key of a recorded finding (known_findings.txt): only this mechanism, any other lost read is reported under its cluster kind
+        chk.violation("reads-lost:gene-free-read-below-the-inconsistent-cut-off-in-a-region-that-holds-a-gene",
+                      "%s: %d unspliced MAPQ-3 read(s) that overlap no annotated feature are not reported: the region of their cluster holds a gene "
+                      "9 kb away, and there every read that is neither consistent nor ambiguous is dropped below --inconsistent_mapq_cutoff (5); in a "
+                      "gene-free region the same read is reported (e.g. %s)" % (desc, len(low_), low_[:2]), wit)
+        missing = [n for n in missing if n not in low_]
     if missing:
         by_kind = Counter(cl_of.get(n, "?") for n in missing)
         for k, cnt in by_kind.items():
@@ -428,7 +460,7 @@ def run(chk, scratch):
                 "tuples where the cluster was split into >=2 regions or fell into the single-bin case")
     n_inproc = 40 if thorough else 6
     n_cli = 10 if thorough else 2
-    kind_sets = [["pile1bin", "valleys", "small", "lowmapq_spliced"], ["valleys_tail", "long_sparse", "gene_valley", "lowmapq_spliced", "no_match_spliced", "two_gene_bridge"], ["pile2bins", "bridged", "valleys", "no_match_spliced", "neighbour_in_bin"],
+    kind_sets = [["pile1bin", "valleys", "small", "lowmapq_spliced", "gene_chain_lowmapq"], ["valleys_tail", "long_sparse", "gene_valley", "lowmapq_spliced", "no_match_spliced", "two_gene_bridge"], ["pile2bins", "bridged", "valleys", "no_match_spliced", "neighbour_in_bin"],
                  ["valleys_tail", "pile1bin", "neighbour_in_bin", "two_gene_bridge"], ["long_sparse", "valleys", "small", "two_gene_bridge"], ["bridged", "valleys_tail", "neighbour_in_bin"]]
     jobs = []
     worlds = {}
